@@ -1558,6 +1558,16 @@ const (
 	invalidUnicodeEscapeError         = "invalid unicode escape"
 )
 
+// Emits the string content scanned in front of an invalid escape sequence.
+// When there is none, the invalid escape sequence gets scanned right away
+// instead of emitting an empty token whose span would end before it starts.
+func (l *Lexer) stringContentBeforeInvalidEscape(value string) *token.Token {
+	if l.cursor == l.start {
+		return l.scanToken()
+	}
+	return l.tokenWithValue(token.STRING_CONTENT, value)
+}
+
 // Scan characters when inside of a string literal (after the initial `"`)
 // and when the next characters aren't `"` or `}`.
 func (l *Lexer) scanStringLiteralContent() *token.Token {
@@ -1618,7 +1628,7 @@ func (l *Lexer) scanStringLiteralContent() *token.Token {
 			if !l.acceptCharsN(hexLiteralChars, 4) {
 				l.pushMode(invalidUnicodeEscapeMode)
 				l.backupChars(2)
-				return l.tokenWithValue(token.STRING_CONTENT, lexemeBuff.String())
+				return l.stringContentBeforeInvalidEscape(lexemeBuff.String())
 			}
 			l.advanceChars(4)
 			value, err := strconv.ParseUint(string(l.source[l.cursor-4:l.cursor]), 16, 16)
@@ -1630,7 +1640,7 @@ func (l *Lexer) scanStringLiteralContent() *token.Token {
 			if !l.acceptCharsN(hexLiteralChars, 8) {
 				l.pushMode(invalidBigUnicodeEscapeMode)
 				l.backupChars(2)
-				return l.tokenWithValue(token.STRING_CONTENT, lexemeBuff.String())
+				return l.stringContentBeforeInvalidEscape(lexemeBuff.String())
 			}
 			l.advanceChars(8)
 			value, err := strconv.ParseUint(string(l.source[l.cursor-8:l.cursor]), 16, 32)
@@ -1642,7 +1652,7 @@ func (l *Lexer) scanStringLiteralContent() *token.Token {
 			if !l.acceptCharsN(hexLiteralChars, 2) {
 				l.pushMode(invalidHexEscapeMode)
 				l.backupChars(2)
-				return l.tokenWithValue(token.STRING_CONTENT, lexemeBuff.String())
+				return l.stringContentBeforeInvalidEscape(lexemeBuff.String())
 			}
 			l.advanceChars(2)
 			value, err := strconv.ParseUint(string(l.source[l.cursor-2:l.cursor]), 16, 8)
@@ -1655,7 +1665,7 @@ func (l *Lexer) scanStringLiteralContent() *token.Token {
 			// rewind to the backslash: the escaped character
 			// may be a line break or take more than one byte
 			l.cursor, l.column, l.line = escapeCursor, escapeColumn, escapeLine
-			return l.tokenWithValue(token.STRING_CONTENT, lexemeBuff.String())
+			return l.stringContentBeforeInvalidEscape(lexemeBuff.String())
 		}
 	}
 }
